@@ -271,6 +271,12 @@ func c04CaseBody(c *core.Ctx, t *dyn.TypeOps, ch, k, s, e int, caseID string, fo
 		// capacity that growth produced)
 		forceCalls = 0
 		b = t.Alloc(signal.Allocator{Channels: ch, Length: 1, Capacity: 1})
+		if (ch+k)%2 == 0 {
+			// a sample offered while the buffer was still full (and refused) must
+			// not matter once the buffer has grown
+			b.AppendSample(t.FromInt(77))
+			c.Obs("sample_appends_refused_before_the_buffer_grew", 1)
+		}
 		b.Append(t.Alloc(signal.Allocator{Channels: ch, Length: k - 1, Capacity: k - 1}))
 		c.Obs("parents_grown_by_append", 1)
 	} else if forceCalls == -2 {
